@@ -308,5 +308,20 @@ def Loop.step (l : Loop) (k : Tick) : Loop :=
     { received := received, shown := some received, lastPrint := some k.tPrinted, now := k.tPrinted }
   else { l with received := received, now := k.tCheck }
 
+/-- the loop over a list of iterations -/
+def Loop.run : Loop → List Tick → Loop
+  | l, [] => l
+  | l, k :: ks => Loop.run (l.step k) ks
+
+/-- every iteration is consistent with the clock of the state it starts from -/
+def TicksOk : Loop → List Tick → Prop
+  | _, [] => True
+  | l, k :: ks => k.ok l ∧ TicksOk (l.step k) ks
+
+/-- rows among the iterations -/
+def rowCount : List Tick → Nat
+  | [] => 0
+  | k :: ks => (if k.isRow then 1 else 0) + rowCount ks
+
 end Term
 end Ag
